@@ -25,7 +25,9 @@ Record acct := mkAcct { a_n : nat; a_st : nat -> astream; a_closed : nat -> bool
 Definition ainit : acct := mkAcct 0 (fun _ => mkAS false 0 false false false false 0 0) (fun _ => false) 0 0.
 
 Definition acan_create (k : acfg) (a : acct) : bool := (ac_max_req k =? 0) || (a_req a <? 0) || (a_req a <? ac_max_req k).
-Definition areq_add (k : acfg) (a : acct) (d : Z) : acct := if ac_max_req k =? 0 then a else a <| a_req := a_req a + d |>.
+(* Increase / Decrease always count (resource_manager.go since c8b45b4d7; pinned by Gen.PoolSrc poolres_src_counts_unlimited);
+   max_requests = 0 only means that CanCreate admits everything *)
+Definition areq_add (k : acfg) (a : acct) (d : Z) : acct := a <| a_req := a_req a + d |>.
 
 Inductive aop :=
 | ANew (oneway : bool) (avail : option nat)  (* pool.NewStream; avail: the connection the pool can put the stream on (None: it has none) *)
